@@ -72,6 +72,7 @@ class Tree:
         self.fac_calls: dict[str, int] = {}
         self.svc_scopes: dict[str, Any] = {}
         self.injected: dict[tuple, Any] = {}
+        self.raised: list[BaseException] = []
         self.root_class = self._build(spec, "")
 
     # ------------------------------------------------------------------------------------------
@@ -90,7 +91,9 @@ class Tree:
             tree.instances[path] = self
             tree.ctor_kwargs[path] = kw
             if node.get("ctor_fail"):
-                raise (CompFail if node["ctor_fail"] == "E" else CompFail2)(f"ctor {path}")
+                exc = (CompFail if node["ctor_fail"] == "E" else CompFail2)(f"ctor {path}")
+                tree.raised.append(exc)
+                raise exc
             for c, cls in children:
                 if not c.get("config_only"):
                     self.add_component(c["alias"], type=cls, **c.get("kwargs", {}))
@@ -194,7 +197,9 @@ class Tree:
                     await self._start_service(path, phase, st)
                 elif k == "fail":
                     env.log("failing", path, phase)
-                    raise (CompFail if st[1] == "E" else CompFail2)(f"{path}:{phase}")
+                    exc = (CompFail if st[1] == "E" else CompFail2)(f"{path}:{phase}")
+                    self.raised.append(exc)
+                    raise exc
                 elif k == "ctxprobe":
                     self._ctxprobe(path, phase, st)
                 elif k == "return":
